@@ -496,7 +496,56 @@ class DictGet(ast.NodeTransformer):
         return node
 
 
-TRANSFORMS = {"eqswap": EqSwap, "cmpflip": CmpFlip, "ifinvert": IfInvert, "notcmp": NotCmp, "augexpand": AugExpand, "annotate": Annotate, "fstring": FString, "methodorder": MethodOrder, "isimerge": IsinstanceMerge, "unelse": UnElse, "elseafter": ElseAfterReturn, "comp2loop": CompToLoop, "loopguard": LoopGuard, "loopnest": LoopNest, "boolreturn": BoolReturn, "boolexpand": BoolReturnExpand, "memtuple": MemTuple, "dictget": DictGet,
+class BoolSwap(ast.NodeTransformer):
+    """operands of `and` / `or` in reverse order where every operand is free of calls and subscripts (no side effects, no
+    exception that short-circuiting would have prevented ... attribute access on None is excluded by requiring that no
+    operand tests another operand's object for None)"""
+
+    def visit_Module(self, node):
+        from .canon import mark_bool_contexts
+        mark_bool_contexts(node)
+        self.generic_visit(node)
+        return node
+
+    def visit_BoolOp(self, node):
+        from .canon import swappable
+        self.generic_visit(node)
+        if swappable(node):
+            node.values = list(reversed(node.values))
+        return node
+
+
+class IfExpToStmt(ast.NodeTransformer):
+    """`x = A if c else B` (statement level, simple target) -> if c: x = A else: x = B"""
+
+    def _fix(self, stmts):
+        out = []
+        for st in stmts:
+            if isinstance(st, ast.Assign) and len(st.targets) == 1 and isinstance(st.targets[0], (ast.Name, ast.Attribute)) \
+                    and isinstance(st.value, ast.IfExp):
+                a = ast.Assign(targets=[st.targets[0]], value=st.value.body)
+                b = ast.Assign(targets=[st.targets[0]], value=st.value.orelse)
+                new = ast.If(test=st.value.test, body=[a], orelse=[b])
+                for n in (a, b, new):
+                    ast.copy_location(n, st)
+                ast.fix_missing_locations(new)
+                out.append(new)
+            else:
+                out.append(st)
+        return out
+
+    def generic_visit(self, node):
+        ast.NodeTransformer.generic_visit(self, node)
+        if isinstance(node, (ast.Module, ast.ClassDef)):
+            return node
+        for f in ("body", "orelse", "finalbody"):
+            b = getattr(node, f, None)
+            if isinstance(b, list) and b and isinstance(b[0], ast.stmt):
+                setattr(node, f, self._fix(b))
+        return node
+
+
+TRANSFORMS = {"eqswap": EqSwap, "cmpflip": CmpFlip, "ifinvert": IfInvert, "notcmp": NotCmp, "augexpand": AugExpand, "annotate": Annotate, "fstring": FString, "methodorder": MethodOrder, "isimerge": IsinstanceMerge, "unelse": UnElse, "elseafter": ElseAfterReturn, "comp2loop": CompToLoop, "loopguard": LoopGuard, "loopnest": LoopNest, "boolreturn": BoolReturn, "boolexpand": BoolReturnExpand, "memtuple": MemTuple, "dictget": DictGet, "boolswap": BoolSwap, "ifexp2stmt": IfExpToStmt,
               "passpad": PassPad, "rename": Rename}
 
-SILENT_VARIANTS = ("eqswap", "cmpflip", "ifinvert", "notcmp", "augexpand", "passpad", "annotate", "fstring", "methodorder", "isimerge", "unelse", "elseafter", "comp2loop", "loopguard", "loopnest", "boolreturn", "boolexpand", "memtuple", "dictget", "rename")
+SILENT_VARIANTS = ("eqswap", "cmpflip", "ifinvert", "notcmp", "augexpand", "passpad", "annotate", "fstring", "methodorder", "isimerge", "unelse", "elseafter", "comp2loop", "loopguard", "loopnest", "boolreturn", "boolexpand", "memtuple", "dictget", "rename", "boolswap", "ifexp2stmt")
